@@ -839,3 +839,265 @@ pub fn c05() -> Property {
         ],
     }
 }
+
+// ------------------------------------------------------------------ C19
+
+/// exact trunc / nearest-integer / floor of a/b and the "near an integer" predicate
+struct Quot {
+    trunc: Big,
+    floor: Big,
+    ceil: Big,
+    near: bool,
+    exact_integer: bool,
+}
+fn quotient(a: &Big, b: &Big) -> Quot {
+    let (fl, exact) = a.div_floor(b);
+    let one = Big::one();
+    let ce = if exact { fl.clone() } else { fl.add(&one) };
+    let q_neg = a.sign() * b.sign() < 0;
+    let tr = if q_neg { ce.clone() } else { fl.clone() };
+    // nearest integer m: the candidate with the smaller |a - m b|
+    let d_fl = a.sub(&fl.mul(b)).abs();
+    let d_ce = a.sub(&ce.mul(b)).abs();
+    let (m, d) = if d_fl <= d_ce { (fl.clone(), d_fl) } else { (ce.clone(), d_ce) };
+    // |a/b - m| <= 2^-98 |a/b|  <=>  |a - m b| <= 2^-98 |a|
+    let near = !m.is_zero() && d <= a.abs().mul_pow2(-98);
+    Quot { trunc: tr, floor: fl, ceil: ce, near, exact_integer: exact }
+}
+
+/// operands for % : b first, a placed relative to b
+fn rem_pair(ctx: &mut Ctx) -> (Dd, Dd) {
+    let b = dd_exp(ctx, -400, 399, false);
+    let c = ctx.weighted(&[5, 4, 4, 3, 2]);
+    let in_range = |d: Dd| d.valid() && d.hi != 0.0 && exponent(d.hi) >= -400 && exponent(d.hi) < 400;
+    let a = match c {
+        0 => {
+            // independent, exponent of a relative to b in [-20, 88]
+            let e = (exponent(b.hi) + ctx.range(-20, 88)).clamp(-400, 399);
+            let m = mantissa(ctx);
+            let hi = f64::from_bits(((ctx.flag() as u64) << 63) | (((e + 1023) as u64) << 52) | m);
+            dd_at(ctx, hi)
+        }
+        1 => {
+            // a = k*b (nearest double-double): exact or within rounding of an integer quotient
+            ctx.label("quotient:integer");
+            let kb = ctx.range(1, 60) as u32;
+            let k = (ctx.word() >> (64 - kb)).max(1);
+            let v = b.big().mul(&Big::from_u64(k));
+            let v = if ctx.flag() { v.neg() } else { v };
+            crate::p_conv::dd_from_big(&v)
+        }
+        2 => {
+            // a = k*b +- tiny
+            ctx.label("quotient:integer+-tiny");
+            let kb = ctx.range(1, 50) as u32;
+            let k = (ctx.word() >> (64 - kb)).max(1);
+            let t = ctx.range(40, 130);
+            let v = b.big().mul(&Big::from_u64(k));
+            let tiny = v.abs().mul_pow2(-t);
+            let v = if ctx.flag() { v.add(&tiny) } else { v.sub(&tiny) };
+            let v = if ctx.flag() { v.neg() } else { v };
+            crate::p_conv::dd_from_big(&v)
+        }
+        3 => {
+            ctx.label("quotient:below-one");
+            let e = (exponent(b.hi) - ctx.range(0, 30)).clamp(-400, 399);
+            let m = mantissa(ctx);
+            let hi = f64::from_bits(((ctx.flag() as u64) << 63) | (((e + 1023) as u64) << 52) | m);
+            dd_at(ctx, hi)
+        }
+        _ => related(ctx, b, -400, 399),
+    };
+    let a = if in_range(a) { a } else { dd_exp(ctx, -400, 399, false) };
+    (a, b)
+}
+
+#[derive(Clone, Copy, PartialEq)]
+enum RForm {
+    TT,
+    TF,
+    FT,
+    AssignTT,
+    AssignTF,
+    DivEuclid,
+    RemEuclid,
+}
+
+fn c19_op(ctx: &mut Ctx, form: RForm) {
+    let (mut a, mut b) = rem_pair(ctx);
+    match form {
+        RForm::TF | RForm::AssignTF => b = Dd::new(b.hi, 0.0),
+        RForm::FT => a = Dd::new(a.hi, 0.0),
+        _ => {}
+    }
+    a.key(ctx);
+    b.key(ctx);
+    note_dd(ctx, "a", a);
+    note_dd(ctx, "b", b);
+    let (va, vb) = (a.big(), b.big());
+    // |a/b| <= 2^90
+    if va.abs() > vb.abs().mul_pow2(90) {
+        ctx.out_of_domain();
+        return;
+    }
+    let (ta, tb) = (a.tf(), b.tf());
+    let name = match form {
+        RForm::TT => "a % b",
+        RForm::TF => "a % f",
+        RForm::FT => "f % b",
+        RForm::AssignTT => "a %= b",
+        RForm::AssignTF => "a %= f",
+        RForm::DivEuclid => "a.div_euclid(b)",
+        RForm::RemEuclid => "a.rem_euclid(b)",
+    };
+    let r = run_tf(ctx, name, || match form {
+        RForm::TT => ta % tb,
+        RForm::TF => ta % b.hi,
+        RForm::FT => a.hi % tb,
+        RForm::AssignTT => {
+            let mut t = ta;
+            t %= tb;
+            t
+        }
+        RForm::AssignTF => {
+            let mut t = ta;
+            t %= b.hi;
+            t
+        }
+        RForm::DivEuclid => crate::inh::div_euclid(ta, tb),
+        RForm::RemEuclid => crate::inh::rem_euclid(ta, tb),
+    });
+    let Some(r) = r else { return };
+    note_dd(ctx, "result", r);
+    if !check_valid(ctx, name, r) {
+        return;
+    }
+    let q = quotient(&va, &vb);
+    if q.near {
+        ctx.label("near-integer-quotient");
+    }
+    let one = Big::one();
+    let tol_scale = va.abs().max(vb.abs());
+    let beta = ku2(16);
+    let euclid = if vb.sign() > 0 { q.floor.clone() } else { q.ceil.clone() };
+    let got = r.big();
+    match form {
+        RForm::DivEuclid => {
+            let ok = got == euclid || (q.near && (got == euclid.add(&one) || got == euclid.sub(&one)));
+            check!(ctx, ok, "div_euclid({}, {}) = {} but the Euclidean quotient is {:e} (near-integer: {})", a.show(), b.show(), r.show(), euclid.approx(), q.near);
+        }
+        _ => {
+            let k0 = if form == RForm::RemEuclid { euclid.clone() } else { q.trunc.clone() };
+            let mut ks = vec![k0.clone()];
+            if q.near {
+                ks.push(k0.add(&one));
+                ks.push(k0.sub(&one));
+            }
+            let bound = beta.mul(&tol_scale);
+            let mut best: Option<Big> = None;
+            for k in &ks {
+                let want = va.sub(&k.mul(&vb));
+                let err = got.sub(&want).abs();
+                if best.as_ref().map_or(true, |b| err < *b) {
+                    best = Some(err);
+                }
+            }
+            let err = best.unwrap();
+            if !err.is_zero() {
+                ctx.ratio_log2(err.log2_abs() - bound.log2_abs());
+            }
+            check!(ctx, err <= bound, "{name}: result {} is 2^{:.1} x max(|a|,|b|) away from a - k*b for every admissible k (k0 ~{:e}, near-integer: {}); a = {}, b = {}", r.show(), err.log2_abs() - tol_scale.log2_abs(), k0.approx(), q.near, a.show(), b.show());
+        }
+    }
+    let qa = va.abs() > vb.abs();
+    ctx.set_nontrivial((qa && !q.exact_integer) || q.near);
+}
+wrap!(c19_rem_tt, |c| c19_op(c, RForm::TT));
+wrap!(c19_rem_tf, |c| c19_op(c, RForm::TF));
+wrap!(c19_rem_ft, |c| c19_op(c, RForm::FT));
+wrap!(c19_remassign_tt, |c| c19_op(c, RForm::AssignTT));
+wrap!(c19_remassign_tf, |c| c19_op(c, RForm::AssignTF));
+wrap!(c19_div_euclid, |c| c19_op(c, RForm::DivEuclid));
+wrap!(c19_rem_euclid, |c| c19_op(c, RForm::RemEuclid));
+
+/// integer operands below 2^53: all three are exact
+fn c19_integers(ctx: &mut Ctx) {
+    let int = |ctx: &mut Ctx| -> f64 {
+        let bits = ctx.range(1, 53) as u32;
+        let v = (ctx.word() >> (64 - bits)).max(1) as f64;
+        if ctx.flag() {
+            -v
+        } else {
+            v
+        }
+    };
+    let b = int(ctx);
+    let a = match ctx.weighted(&[4, 3, 1]) {
+        0 => int(ctx),
+        1 => {
+            ctx.label("quotient:integer");
+            let k = ctx.range(1, 1 << 20) as f64;
+            let v = k * b;
+            if v.abs() < 9007199254740992.0 {
+                v
+            } else {
+                b
+            }
+        }
+        _ => 0.0,
+    };
+    ctx.key_f64(a);
+    ctx.key_f64(b);
+    note_f(ctx, "a", a);
+    note_f(ctx, "b", b);
+    let (va, vb) = (Big::from_f64(a), Big::from_f64(b));
+    let q = quotient(&va, &vb);
+    let (ta, tb) = (TwoFloat::from(a), TwoFloat::from(b));
+    let euclid = if b > 0.0 { q.floor.clone() } else { q.ceil.clone() };
+    let want_rem = va.sub(&q.trunc.mul(&vb));
+    let want_rem_e = va.sub(&euclid.mul(&vb));
+    let forms: [(&str, Box<dyn Fn() -> TwoFloat>, &Big); 7] = [
+        ("a % b", Box::new(move || ta % tb), &want_rem),
+        ("a % f", Box::new(move || ta % b), &want_rem),
+        ("f % b", Box::new(move || a % tb), &want_rem),
+        ("a %= b", Box::new(move || {
+            let mut t = ta;
+            t %= tb;
+            t
+        }), &want_rem),
+        ("a %= f", Box::new(move || {
+            let mut t = ta;
+            t %= b;
+            t
+        }), &want_rem),
+        ("div_euclid", Box::new(move || crate::inh::div_euclid(ta, tb)), &euclid),
+        ("rem_euclid", Box::new(move || crate::inh::rem_euclid(ta, tb)), &want_rem_e),
+    ];
+    for (name, f, want) in forms.iter() {
+        let Some(r) = run_tf(ctx, name, || f()) else { return };
+        if !check_valid(ctx, name, r) {
+            return;
+        }
+        check!(ctx, r.big() == **want, "{name} on integers a = {}, b = {}: got {} but the exact result is {:e}", a, b, r.show(), want.approx());
+    }
+    ctx.set_nontrivial(a.abs() > b.abs());
+}
+
+pub fn c19() -> Property {
+    let g = |name, eval, quick, thorough| SubCheck { name, kind: Kind::Generated { words: 48, max_items: 0 }, eval, quick, thorough };
+    Property {
+        id: "C19",
+        rule: "valid pairs with hi in [2^-400,2^400], |a/b| <= 2^90 by construction (exponent of a chosen relative to b): independent, a = k*b rounded to the nearest double-double (k up to 2^60), a = k*b ± 2^-t (t 40..130), |a| < |b|, equal/negated/neighbouring operands, all four sign combinations, f64 on either side; integer pairs below 2^53. Oracle: exact rational quotient (floor by integer division of the dyadic operands). non-trivial = |a| > |b| with a non-integer quotient, or a near-integer quotient; distinct = distinct operand bit patterns",
+        assumptions: vec![],
+        subchecks: vec![
+            g("rem_tt", c19_rem_tt, 400_000, 15_000_000),
+            g("rem_tf", c19_rem_tf, 300_000, 10_000_000),
+            g("rem_ft", c19_rem_ft, 300_000, 10_000_000),
+            g("remassign_tt", c19_remassign_tt, 300_000, 10_000_000),
+            g("remassign_tf", c19_remassign_tf, 300_000, 10_000_000),
+            g("div_euclid", c19_div_euclid, 400_000, 15_000_000),
+            g("rem_euclid", c19_rem_euclid, 400_000, 15_000_000),
+            g("integers", c19_integers, 400_000, 15_000_000),
+        ],
+    }
+}
